@@ -272,6 +272,23 @@ fn base_messages(rng: &mut Rng, tier: Tier, obs: &mut Obs) -> Vec<Vec<u8>> {
     let mut out = Vec::new();
     let n = rng.urange(1, 3);
     for _ in 0..n {
+        if rng.chance(1, 96) {
+            // inputs beyond 64 KiB: nothing bounds a reader to 16 bits
+            let dl = *rng.pick(&[65_530usize, 65_536, 65_541, 70_000]);
+            let has_o = rng.bool();
+            let m = SpecMessage::Data {
+                prio: rng.bool(),
+                length: None,
+                tunnel_id: rng.u16(),
+                session_id: rng.u16(),
+                ns_nr: if rng.bool() { Some((rng.u16(), rng.u16())) } else { None },
+                offset: if has_o { Some(*rng.pick(&[0u16, 3, 65_535])) } else { None },
+                data: rng.bytes(dl),
+            };
+            obs.count("probe:input-beyond-64k");
+            out.push(spec_encode(&m));
+            continue;
+        }
         match rng.below(10) {
             0..=5 => {
                 let limit = if tier == Tier::Thorough && rng.chance(1, 40) {
@@ -434,22 +451,12 @@ fn run_common<S: Scenario<Case = Case>>(rng: &mut Rng, ctx: &mut Ctx) {
         }
         // the unfaulted delivery first (fault-free configuration)
         deliver_all::<S>(ctx, &mut fr, base.clone(), "none", true);
-        // complete single-fault neighbourhood; big messages are sub-sampled
-        let big = base.len() > 1500;
-        let mut singles: Vec<(&'static str, Vec<u8>)> = Vec::new();
-        enumerate_single_faults(&base, &lay, &mut |k, o| singles.push((k, o)));
-        let stride = if big {
-            (singles.len() / 600).max(1)
-        } else {
-            1
-        };
-        let phase = if stride > 1 { fr.usize_below(stride) } else { 0 };
-        for (i, (k, o)) in singles.into_iter().enumerate() {
-            if stride > 1 && i % stride != phase {
-                continue;
-            }
+        // complete single-fault neighbourhood, delivered as it is produced
+        // (messages above 1500 octets: truncation points and records are
+        // sub-sampled inside the enumerator)
+        enumerate_single_faults(&base, &lay, &mut |k, o| {
             deliver_all::<S>(ctx, &mut fr, o, k, false);
-        }
+        });
         // pairs and longer fault sequences drawn by the PRNG
         let pairs = tier.pick(40, 200);
         for _ in 0..pairs {
